@@ -188,7 +188,8 @@ PROPS = {
         trusted=[
             "PARTIAL by nature: panics, stack exhaustion, out-of-memory aborts and wall-clock hangs live in the Go runtime, which no Gallina model exhibits. What is logic is modelled and proved: the two walks over attacker-controlled references (the page tree reached through /Kids, entered once per Pages node; the /Prev chain of cross-reference sections with its set of offsets already read) as fuelled functions with an explicit OutOfFuel outcome that the theorems exclude for every graph, cyclic ones included, with fuel one unit per object of the file; the bound on the pages a tree can yield (no multiplication through shared subtrees); and the size checks in front of allocations (cross-reference stream /W and /Index against the data, object stream /N against its header, worksheet grid against the cells present, clamped span counts) as decision functions with the bound each accepted value satisfies",
             "tie to /repo: the same random reference graphs (trees, shared subtrees, cycles, dangling and wrongly typed references), /Prev chains (loops, dangling offsets) and boundary sizes are written as files and given to reader.Open + PageCount, core.XRefParser.ParseAllXRefs / ParseXRefFromEOF, core.ObjectStream and xlsx.Open; result (pages, sections read, accepted / refused) must equal the model's",
-            "everything else is decided by running: every entry point (Text, ToMarkdown, Chunks and exports, Document, Fragments, Analyze, PageCount, Lines / Paragraphs / IsCharacterLevel, Text with options, and the raw-byte parsers core.Parser, contentstream.Parser, font.ParseToUnicodeCMap, FromHTMLString) on every damaged input in an isolated worker process with a 15 s deadline, a 768 MiB heap watchdog, a 256 MiB stack limit and a per-call allocation meter; a panic, a fatal runtime error, a kill by the watchdog or a missed deadline is a violation with the input file as replay",
+            "Reader.ResolveDeep (the object-level API) is modelled too (coq/model/C02_Deep.v: arrays of values and references, the set of objects being expanded, the budget of 2^20 values per call; dictionaries are expanded like arrays) and proved to end on every object graph, to return at most budget values and to return the expansion of the object; tied by ResolveDeep on random graphs with cycles, shared subtrees (ten references per level), missing objects and objects that are bare references",
+            "everything else is decided by running: every entry point (Text, ToMarkdown, Chunks and exports, Document, Fragments, Analyze, PageCount, Lines / Paragraphs / IsCharacterLevel, Text with options, the raw-byte parsers core.Parser, contentstream.Parser, font.ParseToUnicodeCMap, FromHTMLString, and for PDF the object-level API: Reader.GetObject of objects 0..24, ResolveDeep of the trailer, of a reference and of a looked-up value, resolver.ObjectResolver.ResolveDeep) on every damaged input in an isolated worker process with a 15 s deadline, a 768 MiB heap watchdog, a 256 MiB stack limit and a per-call allocation meter; a panic, a fatal runtime error, a kill by the watchdog or a missed deadline is a violation with the input file as replay",
             "inputs: valid documents of every format (PDF in the physical layouts of C01) x the fault catalogue of the property (truncation at token boundaries, numeric fields set to 0 / -1 / 2^31 / 2^32-1 / 2^63-1, references retargeted to other objects, their holder or object 0, objects and ZIP members dropped or duplicated, delimiters and tags unbalanced, compressed data corrupted, keys swapped, values of the wrong kind, one or two faults) + random byte noise + directed constructs for each mechanism the property names (/Prev loops, Kids loops and shared-subtree bombs, /Count and /Length lies, self-invoking form XObjects, predictor parameters, ToUnicode ranges, font dictionaries, cross-reference and object stream headers, ODT / DOCX / XLSX repeat, span and level counts, deep nesting in HTML, NCX and OOXML)",
             "thorough tier only: coverage-guided mutation by Go's native fuzzing engine (harness/fuzz_test.go: FuzzPDF, FuzzHTML, FuzzDOCX, FuzzODT, FuzzXLSX, seeded with generated documents and the directed constructs, 40-90 s each; every entry point per mutant under a 15 s deadline and the allocation meter); in the quick tier the byte-noise stream is blind", "NOT covered: decompression bombs (output proportional to what the compressed data really holds), super-linear running times that stay under the deadline on inputs of the sizes generated (a few MB), resource use of concurrent calls",
         ],
